@@ -129,3 +129,91 @@ with ord_stmts (l : stmts) (scope used : list sid) {struct l} : option (list sid
 
 Definition ord_prog (p : prog) : bool :=
   match p with PDfg _ body => match ord_region body [] with Some _ => true | None => false end end.
+
+(* ------------------------------------------------------------------ linear values are used exactly once, and locally *)
+(* lin_prog tys p (for a well-typed p): wire ids are never re-bound; every output of non-copyable type is bound to
+   a wire; every wire of non-copyable type is consumed exactly once, in the region that bound it (as an argument
+   of add_op / add_nested or by set_outputs).  pend: the non-copyable wires of the current region not yet
+   consumed.  Wires of copyable type may be used any number of times, also from enclosing regions. *)
+Definition removeN (w : wid) (l : list wid) : list wid := filter (fun x => negb (x =? w)) l.
+
+Section LIN.
+  Variable tys : list tyinfo.
+
+  Fixpoint use_wires (G : tenv) (pend : list wid) (args : list wid) : option (list wid) :=
+    match args with
+    | [] => Some pend
+    | w :: r =>
+        match wire_ty G w with
+        | None => None
+        | Some t => if ty_copy tys t then use_wires G pend r
+                    else if memN w pend then use_wires G (removeN w pend) r else None
+        end
+    end.
+  (* the result wires bound to non-copyable outputs *)
+  Fixpoint lin_outs_from (i : N) (rs : list wid) (outs : row) : list wid :=
+    match rs with
+    | [] => []
+    | r :: rest =>
+        match nthN outs i with
+        | Some t => if ty_copy tys t then lin_outs_from (i + 1) rest outs else r :: lin_outs_from (i + 1) rest outs
+        | None => lin_outs_from (i + 1) rest outs
+        end
+    end.
+  Definition lin_outs (rs : list wid) (outs : row) : list wid := lin_outs_from 0 rs outs.
+  (* every non-copyable output has a wire *)
+  Definition covers (rs : list wid) (outs : row) : bool :=
+    forallb (fun x => ty_copy tys (snd x) || (fst x <? lenN rs)) (indexed outs).
+  (* new wire ids: distinct and not bound so far *)
+  Definition fresh_ws (G : tenv) (rs : list wid) : bool :=
+    nodupb N.eqb rs && forallb (fun r => negb (is_some (lookup G r))) rs.
+
+  Fixpoint lin_stmt (s : stmt) (G : tenv) (pend : list wid) {struct s} : option (list wid) :=
+    match s with
+    | SOp _ o args rs =>
+        match wire_tys G args with
+        | Some ts =>
+            match completed_op tys o ts, use_wires G pend args with
+            | Ok op', Some pend1 =>
+                if fresh_ws G rs && covers rs (val_out op') then Some (lin_outs rs (val_out op') ++ pend1) else None
+            | _, _ => None
+            end
+        | None => None
+        end
+    | SLoad _ v _ r => if fresh_ws G [r] then Some (lin_outs [r] [value_ty v] ++ pend) else None
+    | SNested _ args body rs =>
+        match wire_tys G args with
+        | Some ts =>
+            match use_wires G pend args, wt_region tys body ts G with
+            | Some pend1, Some (G1, outs) =>
+                if lin_region body ts G && fresh_ws G1 rs && covers rs outs then Some (lin_outs rs outs ++ pend1) else None
+            | _, _ => None
+            end
+        | None => None
+        end
+    | SOrder _ _ => Some pend
+    end
+  with lin_region (r : region) (ins : row) (G : tenv) {struct r} : bool :=
+    match r with
+    | Region ws body oids =>
+        fresh_ws G ws && covers ws ins &&
+        match lin_stmts body (tbind G ws ins) (lin_outs ws ins), wt_stmts tys body (tbind G ws ins) with
+        | Some pend1, Some G1 => match use_wires G1 pend1 oids with Some [] => true | _ => false end
+        | _, _ => false
+        end
+    end
+  with lin_stmts (l : stmts) (G : tenv) (pend : list wid) {struct l} : option (list wid) :=
+    match l with
+    | SNil => Some pend
+    | SCons s r =>
+        match lin_stmt s G pend, wt_stmt tys s G with
+        | Some p1, Some G1 => lin_stmts r G1 p1
+        | _, _ => None
+        end
+    end.
+
+  Definition lin_prog (p : prog) : bool := match p with PDfg ins body => lin_region body ins [] end.
+End LIN.
+
+(* the well-formedness premise of the property: all three *)
+Definition wf_prog (tys : list tyinfo) (p : prog) : bool := wt_prog tys p && ord_prog p && lin_prog tys p.
